@@ -1,12 +1,11 @@
 (* C18/Properties.v — the property theorems only.  Each is closed by [exact] of a lemma from Proofs.v (or by
    vm_compute for a concrete witness) and followed by Print Assumptions.
 
-   [repaired] (Model.v) = /repo with the four committed repairs (88f69f7 mode bits, f4d379f current-manifest
-   restore, b6afef3 ForceRetry keeps the interrupted upgrade's snapshot, ca3a3f9 Rollback refuses a journal at
-   "started") plus the one still proposed (ForceRetry must install every path the kept snapshot covers,
-   fixes/C18_force_retry_same_artifact_set.patch).  [leaves_residue] = /repo at ca3a3f9, i.e. without the last one
-   (recorded finding forceretry-subset-leaves-residue; `C18_success_leaves_no_residue_refuted`).  The correspondence
-   check compares /repo with these two.  [pre_b6afef3] and [pre_88f69f7] are historical (`_refuted` witnesses only).
+   [repaired] (Model.v) = what /repo HEAD does: all five repairs are committed (88f69f7 mode bits, f4d379f
+   current-manifest restore, b6afef3 ForceRetry keeps the interrupted upgrade's snapshot, ca3a3f9 Rollback refuses a
+   journal at "started", 31f4cb6 ForceRetry must install every path the kept snapshot covers).  The correspondence check
+   compares /repo with [repaired] only.  [pre_31f4cb6], [pre_b6afef3], [pre_88f69f7] are historical and appear only in
+   the `_refuted` witnesses below.
    Reachable state = [exec repaired (init_world c f) ops] for an arbitrary
    installed tree f (symlinks, directories, anything), version c and history ops (applies with any tarball,
    options incl. ForceRetry, fault set and crash label; rollbacks; operator edits; obstacle removal).
@@ -193,17 +192,17 @@ Definition interrupted_then_forced : list op :=
   [OpApply (tar_ex 2 PrevNone) no_opts swap_and_rollback_fail;    (* leaves artifact 0 new, artifact 1 old *)
    OpApply (tar_ex 2 PrevNone) force health_fails].               (* ForceRetry, health fails, auto-rollback "succeeds" *)
 
-(* /repo at ca3a3f9 (recorded finding, fix proposed): after the interrupted upgrade to version 2 replaced artifact 0,
-   a ForceRetry with a version-5 tarball that installs only artifact 1 is admitted, completes and reports success;
-   artifact 0 keeps the version-2 bytes on a box whose current-manifest says 5 *)
+(* historical, fixed in 31f4cb6: after the interrupted upgrade to version 2 replaced artifact 0,
+   a ForceRetry with a version-5 tarball that installs only artifact 1 was admitted, completed and reported success;
+   artifact 0 kept the version-2 bytes on a box whose current-manifest says 5 *)
 Definition only_art1 : tarball :=
   {| t_to := 5; t_prev := PrevNone; t_sig_ok := true; t_members_ok := true; t_digest_ok := true; t_hook_ok := true;
      t_arts := [ {| a_path := 1; a_content := 31; a_mode := MEmpty; a_vpp := false |} ] |}.
 Definition start_fails_twice : faults :=   (* daemon start fails, the auto-rollback cannot stop the daemon *)
   {| f_fail := [8; 12]; f_crash := None; f_ha := true; f_hr := true; f_ob := []; f_rob := [] |}.
 Theorem C18_success_leaves_no_residue_refuted :
-  exists w1 w' m, exec leaves_residue (init_world 1 fs_ex) [OpApply (tar_ex 2 PrevNone) no_opts start_fails_twice] = w1 /\
-    step leaves_residue w1 (OpApply only_art1 force no_faults) = (w', (ROk, m)) /\ m = MonMixed /\ cur w' = 5 /\
+  exists w1 w' m, exec pre_31f4cb6 (init_world 1 fs_ex) [OpApply (tar_ex 2 PrevNone) no_opts start_fails_twice] = w1 /\
+    step pre_31f4cb6 w1 (OpApply only_art1 force no_faults) = (w', (ROk, m)) /\ m = MonMixed /\ cur w' = 5 /\
     ofile_eqb (fs w' 0) (Some (Reg 20 493)) = true /\ ofile_eqb (fs w' 1) (Some (Reg 31 420)) = true.
 Proof.
   do 3 eexists. split; [reflexivity|]. split; [vm_compute; reflexivity|]. split; [reflexivity|].
